@@ -100,6 +100,35 @@ func c05Case(unit string, T uint16, phase int64, interf string) (string, *TimedC
 		tc.Steps = append(tc.Steps, TStep{At: tb + Tn - 4*sec, Client: 0, Cmd: U(3, 1, 1)})
 		tc.Expect = []Expect{{Req: 2, Kind: "granted", Lo: 0, Hi: Tn}, {Req: 10, Kind: "timeout", Lo: Tn, Hi: hi}, {Req: 11, Kind: "timeout", Lo: Tn, Hi: hi}, {Req: 12, Kind: "timeout", Lo: Tn, Hi: hi}}
 		tc.Horizon = tb + Tn + 9*sec
+	case "recycled-long-bucket-cancel":
+		// as below, but the second waiter leaves its bucket by being cancelled (no hold is created whose own
+		// expiry record could take the recycled queue)
+		tc.Clients = 3
+		w1, w2 := w, w
+		w1.Req, w1.Id = 21, 21
+		w2.Req, w2.Id = 22, 22
+		t1 := tb + Tn + 3*sec
+		tc.Steps = append(tc.Steps, TStep{At: t1, Client: 2, Cmd: w1},
+			TStep{At: t1 + 50*sec, Client: 0, Cmd: hapi.Cmd{Type: 2, Req: 3, Key: 1, Id: 21, Flag: 0x02}},
+			TStep{At: t1 + 52*sec, Client: 2, Cmd: w2})
+		tc.Expect = []Expect{to, {Req: 21, Kind: "cancelled"}, {Req: 22, Kind: "timeout", Lo: Tn, Hi: hi}}
+		tc.Horizon = t1 + 52*sec + Tn + 6*sec
+		tc.ZeroWait = true
+	case "recycled-long-bucket":
+		// long waits are filed in per-second buckets whose queues are recycled: a first waiter times out (its
+		// bucket's queue goes back to the pool), a second one takes the recycled queue and LEAVES it by being
+		// granted, a third one queues later with a later deadline: it must still time out at its own deadline
+		tc.Clients = 3
+		w1, w2 := w, w
+		w1.Req, w1.Id = 21, 21
+		w1.Expried, w1.ExpriedFlag = 0xffff, fUnlim
+		w2.Req, w2.Id, w2.Count = 22, 22, 0
+		t1 := tb + Tn + 3*sec
+		tc.Steps = append(tc.Steps, TStep{At: t1, Client: 2, Cmd: w1},
+			TStep{At: t1 + 50*sec, Client: 0, Cmd: U(3, 1, 1)}, // by now the second waiter sits in the long-wait table
+			TStep{At: t1 + 52*sec, Client: 2, Cmd: w2})        // enters the long-wait table before the second one's deadline passes
+		tc.Expect = []Expect{to, {Req: 21, Kind: "granted", Lo: 0, Hi: Tn}, {Req: 22, Kind: "timeout", Lo: Tn, Hi: hi}}
+		tc.Horizon = t1 + 52*sec + Tn + 6*sec
 	case "many-same-deadline":
 		tc.Clients = 3
 		for i := 0; i < 200; i++ {
@@ -173,6 +202,12 @@ func c05Cases(quick bool) []EnumCase {
 	for _, T := range []uint16{6, 20, 50, 60, 75} {
 		for _, ph := range phases {
 			add("s", T, ph, "three-same-deadline-first-granted")
+		}
+	}
+	for _, T := range []uint16{110, 120, 150, 200, 300} {
+		for _, ph := range phases {
+			add("s", T, ph, "recycled-long-bucket")
+			add("s", T, ph, "recycled-long-bucket-cancel")
 		}
 	}
 	mins := []uint16{1, 2, 3}
